@@ -6,14 +6,16 @@ classes 1..NSizes (see StoreGen.tla).  Concretising picks, per script, one byte 
 for every size class.  The byte counts sit on the boundaries of the allocator's size
 classes (store.c: fixedSize[] = 8,16,24,32,48,64,80,96,128,160,192,256 bytes; above
 256 bytes mixed pieces in units of 256 bytes with a 32-byte header; 4096-byte pages;
-70000 = a block of 18 pages), so that over all scripts every boundary value meets
+7648/7649 and 7904/7905 = a request that just fills / no longer fits a fresh two-page mixed
+section of 31 quanta, i.e. the frontier is consumed whole instead of split -- a sub-case the
+StoreImpl model distinguishes; 70000 = a block of 18 pages), so that over all scripts every boundary value meets
 every operation pattern.  Nothing here decides anything: the scripts are inputs, the
 recorded traces are judged by TLC (TraceStore.tla).
 """
 import json
 
 BOUNDARY = [1, 8, 9, 16, 17, 24, 25, 32, 33, 48, 49, 64, 65, 80, 81, 96, 97, 128, 129, 160, 161,
-            192, 193, 255, 256, 257, 480, 481, 736, 737, 4095, 4096, 4097, 70000]
+            192, 193, 255, 256, 257, 480, 481, 736, 737, 4095, 4096, 4097, 7648, 7649, 7904, 7905, 70000]
 
 PTR_CODE = 3      # an object code registered with hasPtrs (all codes < 29 are)
 PTRFREE_CODE = 30  # registered pointer-free by the harness
@@ -28,7 +30,7 @@ def shape_assignments():
         t = (B[i], B[i + 1], B[i + 2])
         out.append(t)
         out.append((t[2], t[0], t[1]))
-    out += [(8, 256, 4097), (1, 257, 70000), (16, 480, 4096), (256, 257, 70000), (70000, 8, 481),
+    out += [(7904, 7904, 257), (7904, 480, 7904), (7648, 7905, 7904), (8, 256, 4097), (1, 257, 70000), (16, 480, 4096), (256, 257, 70000), (70000, 8, 481),
             (4096, 4097, 4095), (255, 70000, 256), (32, 33, 4096), (481, 480, 8), (737, 16, 257)]
     return out
 
